@@ -4,6 +4,8 @@ use crate::gen::*;
 use crate::model::*;
 use crate::{ensure, lib};
 use hifitime::Duration;
+#[allow(unused_imports)]
+use hifitime::Unit;
 use proptest::prelude::*;
 use serde::{Deserialize, Serialize};
 use std::cmp::Ordering;
@@ -20,10 +22,37 @@ pub struct Pair {
     pub a: Dur,
     pub b: Dur,
     pub structured: bool,
+    /// how each operand is built from its count: 0 from_parts, 1 from_total_nanoseconds,
+    /// 2 from_truncated_nanoseconds (when it fits), 3 an integer multiple of a unit (when it is one), 4 -(-x)
+    #[serde(default)]
+    pub route: (u8, u8),
+}
+
+/// builds a duration with the given count through one of several public constructors
+fn build(d: &Dur, route: u8) -> Duration {
+    let plain = d.lib();
+    let c = d.intended();
+    if d.n as i128 >= NPC {
+        return plain; // un-normalised input: only from_parts takes it
+    }
+    match route {
+        1 => Duration::from_total_nanoseconds(c),
+        2 if c >= i64::MIN as i128 && c <= i64::MAX as i128 => Duration::from_truncated_nanoseconds(c as i64),
+        3 => {
+            for u in (0..9).rev() {
+                if c % UNIT_NS[u] == 0 && (c / UNIT_NS[u]).abs() <= i64::MAX as i128 {
+                    return (c / UNIT_NS[u]) as i64 * UNITS[u];
+                }
+            }
+            plain
+        }
+        4 if c > DMIN && c < DMAX => -(-plain),
+        _ => plain,
+    }
 }
 
 fn pair_strategy() -> BS<Pair> {
-    let free = (dur_any(), dur_any()).prop_map(|(a, b)| Pair { a, b, structured: false }).boxed();
+    let free = (dur_any(), dur_any()).prop_map(|(a, b)| Pair { a, b, structured: false, route: (0, 0) }).boxed();
     let structured = (dur_canon(), 0u8..8, edge_centuries(), small_delta(3))
         .prop_map(|(a, kind, k, d)| {
             let ca = a.intended();
@@ -37,24 +66,27 @@ fn pair_strategy() -> BS<Pair> {
                 6 => ca + d,              // adjacent
                 _ => (ca.rem_euclid(NPC)) - NPC + d, // same ns field in century -1
             };
-            Pair { a, b: Dur::of_count(cb), structured: true }
+            Pair { a, b: Dur::of_count(cb), structured: true, route: (0, 0) }
         })
         .boxed();
     // small magnitudes straddling zero, both in century 0 / -1
     let zero_x = (-(2 * NPC)..(2 * NPC), small_delta(3), any::<bool>())
-        .prop_map(|(x, d, neg)| Pair { a: Dur::of_count(x), b: Dur::of_count(if neg { -x + d } else { NPC - x + d }), structured: true })
+        .prop_map(|(x, d, neg)| Pair { a: Dur::of_count(x), b: Dur::of_count(if neg { -x + d } else { NPC - x + d }), structured: true, route: (0, 0) })
         .boxed();
-    (wunion(vec![(4, free), (5, structured), (2, zero_x)]), any::<bool>())
-        .prop_map(|(p, sw)| if sw { Pair { a: p.b, b: p.a, structured: p.structured } } else { p })
+    // equal counts reached through different constructor inputs (exact unit multiples favoured)
+    let same_count = (prop_oneof![count_any(), (0usize..9, -40_000i128..=40_000).prop_map(|(u, k)| clamp(k * UNIT_NS[u]))], small_delta(1))
+        .prop_map(|(c, d)| Pair { a: Dur::of_count(c), b: Dur::of_count(c + d), structured: true, route: (0, 0) })
+        .boxed();
+    (wunion(vec![(4, free), (5, structured), (2, zero_x), (3, same_count)]), any::<bool>(), 0u8..5, 0u8..5)
+        .prop_map(|(p, sw, r1, r2)| if sw { Pair { a: p.b, b: p.a, structured: p.structured, route: (r1, r2) } } else { Pair { route: (r1, r2), ..p } })
         .boxed()
 }
 
 fn pair_oracle(c: &Pair) -> Verdict {
-    let a = lib!(c.a.lib());
-    let b = lib!(c.b.lib());
-    if !canonical(a) || !canonical(b) {
-        return Verdict::Skip("non-canonical operand (C02's subject)");
-    }
+    let a = lib!(build(&c.a, c.route.0));
+    let b = lib!(build(&c.b, c.route.1));
+    // (a non-canonical operand is not skipped here: two values with the same count must still be equal
+    // and ordered by their count, whatever constructor produced them)
     let (ca, cb) = (count(a), count(b));
     let ord = ca.cmp(&cb);
     let desc = format!("a={:?} (count {}) b={:?} (count {})", a.to_parts(), ca, b.to_parts(), cb);
